@@ -1,18 +1,31 @@
 ------------------------------ MODULE MergeAlgo ------------------------------
 (***************************************************************************)
-(* Transcription of nbdime's three-way merge of LISTS OF ATOMIC ITEMS      *)
-(* (merging/chunks.py: boundaries, splitting of removals, chunk assembly;  *)
-(* merging/generic.py: the chunk-type switch of _merge_lists,              *)
-(* _merge_concurrent_inserts and _split_addrange) without strategies, on   *)
-(* top of the transcribed differ (SeqDiffAlgo) and the reference semantics *)
-(* of decisions (MergeFormat).                                             *)
+(* Transcription of nbdime's generic three-way merge without strategies:   *)
+(*   merging/chunks.py   boundaries, splitting of removals, chunk assembly *)
+(*   merging/generic.py  the chunk-type switch of _merge_lists with ALL    *)
+(*                       its arms (one-sided, agreement, patch/patch with  *)
+(*                       recursion into the item, patch/remove, insert     *)
+(*                       before patch/remove, concurrent inserts with and  *)
+(*                       without removal), _merge_concurrent_inserts,      *)
+(*                       _split_addrange, _merge_dicts for atomic values   *)
+(*   merging/decisions.py  add_decision's ensure_common_path (PushOut) and *)
+(*                       the ordering of validated() (Validated)           *)
+(* on top of the transcribed differ (SeqDiffAlgo) and the reference        *)
+(* semantics of decisions (MergeFormat).                                   *)
 (*                                                                         *)
-(* State machine: Init picks base, local, remote from a bounded universe;  *)
-(* Decide computes the diffs, the decisions and the merged list.           *)
-(* TLC checks at design level, for EVERY triple of the universe:           *)
+(* State machine: Init picks the inputs from a bounded universe -          *)
+(*   Kind "lists" / "objects": base, local, remote; the diffs are computed *)
+(*        by the transcribed differ;                                       *)
+(*   Kind "nested": a base list of small objects and EVERY pair of         *)
+(*        canonical well-formed diffs of it (DiffGen), patch entries       *)
+(*        included; local / remote are Patch(base, diff) -                 *)
+(* Decide computes the decisions and the merged document.                  *)
+(* TLC checks at design level, for EVERY input of the universe:            *)
 (*   ChunkShapes     <= 1 insertion and <= 1 removal per side per chunk,   *)
 (*                   removals of the two sides cover the same range        *)
-(*   DiffsCorrect    the transcribed differ is well-formed, exact, optimal *)
+(*   DiffsCorrect    the diffs are well-formed and exact (and optimal for  *)
+(*                   the transcribed differ)                               *)
+(*   NoErrorArm      the "not expecting" / "unhandled" arms are unreachable*)
 (*   Applies         the decisions apply (MergeFormat!ApplyDecisions)      *)
 (*   AllLocal/AllRemote  relabelling every decision reproduces that side   *)
 (*   Laws            identity, one-sided adoption, agreement (C05)         *)
@@ -21,15 +34,20 @@
 (*   DisjointClean   changes at separated positions never conflict and     *)
 (*                   both are applied (C06)                                *)
 (*   EmbeddedAllWF   every embedded diff is well-formed (C11)              *)
-(* With EMIT every (base, local, remote, decisions, merged) is printed and *)
-(* compared with what nbdime's decide_merge/apply_decisions return.        *)
+(* With EMIT every (base, local, remote, diffs, decisions, merged) is      *)
+(* printed and compared with what nbdime's decide_merge[_with_diff] /      *)
+(* apply_decisions return (path, action, conflict, diffs, merged).         *)
 (***************************************************************************)
-EXTENDS MergeContract, SeqDiffAlgo, Json
+EXTENDS MergeContract, SeqDiffAlgo, DiffGen, Json
 
-CONSTANTS MaxLen, EMIT, Kind      \* Kind = "lists" | "objects"
+CONSTANTS MaxLen, EMIT,
+          Kind,        \* "lists" | "objects" (diffs computed by the transcribed differ) |
+                       \* "nested" (lists of small objects; EVERY pair of well-formed diffs of the base, patch entries included)
+          NIns,        \* nested: number of insertion choices per gap (2: none / one item; 3: two different items)
+          NPatch       \* nested: "few" (two replacing patches per item) | "all" (remove / replace / add per key)
 
-VARIABLES base, local, remote, D, merged, phase
-vars == <<base, local, remote, D, merged, phase>>
+VARIABLES base, local, remote, ldv, rdv, D, merged, phase
+vars == <<base, local, remote, ldv, rdv, D, merged, phase>>
 
 Atoms == {Int("1"), Int("2"), Str(<<120>>)}
 RECURSIVE SeqsUpTo(_, _)
@@ -39,6 +57,26 @@ SeqsUpTo(S, n) == IF n = 0 THEN {<<>>}
 ListU == SeqsUpTo(Atoms, MaxLen)
 KS == <<"a", "b">>                        \* the keys, in sorted order
 ObjU == UNION {[K -> Atoms] : K \in SUBSET {KS[j] : j \in 1..Len(KS)}}
+
+\* nested universe: lists of two kinds of small objects, and all their canonical well-formed diffs
+NItem1 == Obj([k \in {"a"} |-> Int("1")])
+NItem2 == Obj([k \in {"a", "b"} |-> IF k = "a" THEN Int("1") ELSE Int("2")])
+NestU == SeqsUpTo({NItem1, NItem2}, MaxLen)
+ORm(k) == [op |-> "remove", kt |-> "s", key |-> k]
+ORp(k, v) == [op |-> "replace", kt |-> "s", key |-> k, value |-> v]
+OAd(k, v) == [op |-> "add", kt |-> "s", key |-> k, value |-> v]
+ItemDiffs(it) ==
+  IF NPatch = "few" THEN {<<ORp("a", Int("7"))>>, <<ORp("a", Int("8"))>>}
+  ELSE LET FA == {<<>>, <<ORm("a")>>, <<ORp("a", Int("7"))>>, <<ORp("a", Int("8"))>>}
+           FB == IF "b" \in DOMAIN it.m THEN {<<>>, <<ORm("b")>>, <<ORp("b", Int("7"))>>} ELSE {<<>>, <<OAd("b", Int("7"))>>}
+       IN {x \o y : x \in FA, y \in FB} \ {<<>>}
+NInsU == IF NIns = 2 THEN {<<NItem1>>} ELSE {<<NItem1>>, <<NItem2>>}
+NestedDiffs(items) ==
+  LET n == Len(items)
+      Fates(j) == {<<"keep">>, <<"rm">>} \cup {<<"patch", sd>> : sd \in ItemDiffs(items[j])}
+      FateFns == IF n = 0 THEN {<<>>}
+                 ELSE {f \in [1..n -> UNION {Fates(j) : j \in 1..n}] : \A j \in 1..n : f[j] \in Fates(j)}
+  IN {BuildSeq(n, ins, fate, mg) : ins \in [0..n -> InsChoices(NInsU, List)], fate \in FateFns, mg \in BOOLEAN}
 
 (***************************************************************************)
 (* chunks.py                                                               *)
@@ -89,10 +127,35 @@ OneSided(d0, d1)  == IF Len(d0) > 0 THEN Dec("local", FALSE, d0, FALSE, d1, FALS
 Agreement(d0, d1) == Dec("either", FALSE, d0, FALSE, d1, FALSE)
 Conflict(d0, d1)  == Dec("base", TRUE, d0, FALSE, d1, FALSE)
 
-\* entry-wise structural equality of two sequence diffs of atoms
-EntryEq(e, f) == e.op = f.op /\ e.key = f.key /\
-                 (IF e.op = "removerange" THEN e.length = f.length ELSE Eq(e.valuelist, f.valuelist))
+\* entry-wise structural equality of two diffs (DiffEntry.__eq__)
+RECURSIVE EntryEq(_, _)
+EntryEq(e, f) ==
+  /\ e.op = f.op /\ e.kt = f.kt /\ e.key = f.key
+  /\ CASE e.op = "removerange" -> e.length = f.length
+        [] e.op = "addrange" -> Eq(e.valuelist, f.valuelist)
+        [] e.op \in {"add", "replace"} -> Eq(e.value, f.value)
+        [] e.op = "patch" -> Len(e.diff) = Len(f.diff) /\ \A j \in 1..Len(e.diff) : EntryEq(e.diff[j], f.diff[j])
+        [] OTHER -> TRUE
 DiffEq(d0, d1) == Len(d0) = Len(d1) /\ \A j \in 1..Len(d0) : EntryEq(d0[j], d1[j])
+
+\* add_decision -> ensure_common_path: while every non-empty diff of the decision is a single patch entry on one
+\* key, the key moves into the path and the inner diffs take their place (an empty diff becomes None)
+RECURSIVE PushOut(_)
+PushOut(dec) ==
+  LET l == dec.local_diff
+      r == dec.remote_diff
+      ne == (IF Len(l) > 0 THEN {l} ELSE {}) \cup (IF Len(r) > 0 THEN {r} ELSE {})
+      poppable == /\ ne # {}
+                  /\ \A x \in ne : Len(x) = 1 /\ x[1].op = "patch"
+                  /\ \A x, y \in ne : x[1].kt = y[1].kt /\ x[1].key = y[1].key
+  IN IF ~poppable THEN dec
+     ELSE LET e == (CHOOSE x \in ne : TRUE)[1]
+              step == [k |-> e.kt, s |-> IF e.kt = "s" THEN e.key ELSE "", i |-> IF e.kt = "i" THEN e.key ELSE 0]
+          IN PushOut([dec EXCEPT !.common_path = @ \o <<step>>,
+                                 !.local_diff = IF Len(l) > 0 THEN l[1].diff ELSE <<>>, !.local_null = (Len(l) = 0),
+                                 !.remote_diff = IF Len(r) > 0 THEN r[1].diff ELSE <<>>, !.remote_null = (Len(r) = 0)])
+ItemPath(key) == << [k |-> "i", s |-> "", i |-> key] >>
+At(p, ds) == [j \in 1..Len(ds) |-> [ds[j] EXCEPT !.common_path = p \o @]]
 
 (***************************************************************************)
 (* _split_addrange: both sides insert at key; align the inserted values    *)
@@ -142,32 +205,6 @@ MergeConcurrentInserts(ld, rd) ==
      ELSE sub
 
 (***************************************************************************)
-(* the chunk-type switch of _merge_lists (atoms: no patch ops)             *)
-(***************************************************************************)
-ChunkDecisions(c) ==
-  LET d0 == c.d0
-      d1 == c.d1
-      a0 == SelectSeq(d0, LAMBDA e : e.op = "addrange")
-      p0 == SelectSeq(d0, LAMBDA e : e.op # "addrange")
-      a1 == SelectSeq(d1, LAMBDA e : e.op = "addrange")
-      p1 == SelectSeq(d1, LAMBDA e : e.op # "addrange")
-      ct == <<Len(a0) > 0, Len(p0) > 0, Len(a1) > 0, Len(p1) > 0>>
-  IN IF Len(d0) = 0 /\ Len(d1) = 0 THEN <<>>
-     ELSE IF Len(d0) = 0 \/ Len(d1) = 0 THEN <<OneSided(d0, d1)>>
-     ELSE IF DiffEq(d0, d1) THEN <<Agreement(d0, d1)>>
-     ELSE IF ct = <<FALSE, TRUE, FALSE, TRUE>> THEN <<[Conflict(d0, d1) EXCEPT !.action = "ERROR-R/R"]>>
-     ELSE IF ct = <<TRUE, FALSE, FALSE, TRUE>>          \* A/R: insert before an item the other side removes
-          THEN <<Dec("local_then_remote", TRUE, d0, FALSE, d1, FALSE)>>
-     ELSE IF ct = <<FALSE, TRUE, TRUE, FALSE>>          \* R/A
-          THEN <<Dec("remote_then_local", TRUE, d0, FALSE, d1, FALSE)>>
-     ELSE IF ct = <<TRUE, TRUE, FALSE, TRUE>> \/ ct = <<FALSE, TRUE, TRUE, TRUE>>     \* AR/R, R/AR
-          THEN <<OneSided(a0, a1), Agreement(p0, p1)>>
-     ELSE MergeConcurrentInserts(d0, d1)                 \* AR/A, A/AR, A/A, AR/AR
-
-Decisions(b, ld, rd) ==
-  LET cs == Chunks(Len(b), ld, rd) IN FlatSeq([i \in 1..Len(cs) |-> ChunkDecisions(cs[i])])
-
-(***************************************************************************)
 (* _merge_dicts for objects of atomic values (no strategies, no transients) *)
 (***************************************************************************)
 EntryOf(d, k) == LET idx == {j \in 1..Len(d) : d[j].key = k} IN
@@ -190,29 +227,84 @@ ObjDecisions(ld, rd) ==
   IN FlatSeq([j \in 1..Len(KS) |-> One(KS[j])]) \o FlatSeq([j \in 1..Len(KS) |-> Two(KS[j])])
 
 (***************************************************************************)
+(* the chunk-type switch of _merge_lists (no strategies, no transients)    *)
+(***************************************************************************)
+\* P/P, P/R, R/P with or without prior insertions
+PatchArms(key, a0, p0, a1, p1) ==
+  LET pre == IF Len(a0) > 0 /\ Len(a1) > 0 THEN MergeConcurrentInserts(a0, a1)
+             ELSE IF Len(a0) > 0 \/ Len(a1) > 0 THEN <<OneSided(a0, a1)>> ELSE <<>>
+      post == IF DiffEq(p0, p1) THEN <<Agreement(p0, p1)>>
+              ELSE IF p0[1].op = "patch" /\ p1[1].op = "patch"
+                   THEN At(ItemPath(key), ObjDecisions(p0[1].diff, p1[1].diff))     \* _merge(base[key], ...) -> _merge_dicts
+                   ELSE <<Conflict(p0, p1)>>                                        \* patch of an item the other side removes
+  IN pre \o post
+
+ChunkDecisions(c) ==
+  LET d0 == c.d0
+      d1 == c.d1
+      a0 == SelectSeq(d0, LAMBDA e : e.op = "addrange")
+      p0 == SelectSeq(d0, LAMBDA e : e.op # "addrange")
+      a1 == SelectSeq(d1, LAMBDA e : e.op = "addrange")
+      p1 == SelectSeq(d1, LAMBDA e : e.op # "addrange")
+      PN(p) == IF Len(p) = 0 THEN "" ELSE IF p[1].op = "removerange" THEN "R" ELSE "P"
+      AN(a) == IF Len(a) = 0 THEN "" ELSE "A"
+      pct == PN(p0) \o "/" \o PN(p1)
+      ct == AN(a0) \o PN(p0) \o "/" \o AN(a1) \o PN(p1)
+  IN IF ct = "/" THEN <<>>
+     ELSE IF Len(d0) = 0 \/ Len(d1) = 0 THEN <<OneSided(d0, d1)>>
+     ELSE IF DiffEq(d0, d1) THEN <<Agreement(d0, d1)>>
+     ELSE IF ct = "R/R" THEN <<[Conflict(d0, d1) EXCEPT !.action = "ERROR-R/R"]>>
+     ELSE IF pct \in {"P/P", "P/R", "R/P"} THEN PatchArms(c.j, a0, p0, a1, p1)
+     ELSE IF ct \in {"A/P", "A/R"}          \* insert before an item the other side patches / removes
+          THEN <<Dec("local_then_remote", TRUE, d0, FALSE, d1, FALSE)>>
+     ELSE IF ct \in {"P/A", "R/A"}
+          THEN <<Dec("remote_then_local", TRUE, d0, FALSE, d1, FALSE)>>
+     ELSE IF ct \in {"A/AP", "AP/A"} THEN Append(MergeConcurrentInserts(a0, a1), OneSided(p0, p1))
+     ELSE IF ct \in {"AR/R", "R/AR"} THEN <<OneSided(a0, a1), Agreement(p0, p1)>>
+     ELSE IF ct \in {"AR/A", "A/AR", "A/A", "AR/AR"} THEN MergeConcurrentInserts(d0, d1)
+     ELSE <<[Conflict(d0, d1) EXCEPT !.action = "ERROR-unhandled"]>>
+
+\* MergeDecisionBuilder.validated: stable sort, item paths by ascending index, enclosing path last
+Validated(n, ds) ==
+  FlatSeq([k \in 1..n |-> SelectSeq(ds, LAMBDA x : Len(x.common_path) > 0 /\ x.common_path[1].i = k - 1)])
+  \o SelectSeq(ds, LAMBDA x : Len(x.common_path) = 0)
+
+Decisions(b, ld, rd) ==
+  LET cs == Chunks(Len(b), ld, rd)
+      raw == FlatSeq([i \in 1..Len(cs) |-> ChunkDecisions(cs[i])])
+  IN Validated(Len(b), [j \in 1..Len(raw) |-> PushOut(raw[j])])
+
+(***************************************************************************)
 (* the state machine                                                       *)
 (***************************************************************************)
 IsLists == Kind = "lists"
-Doc(x) == IF IsLists THEN List(x) ELSE Obj(x)
+IsNested == Kind = "nested"
+IsSeq == IsLists \/ IsNested
+Doc(x) == IF IsSeq THEN List(x) ELSE Obj(x)
 DiffOf(x, y) == IF IsLists THEN ListDiff(x, y) ELSE ObjDiff(x, y, KS)
-DecisionsOf(b, ld, rd) == IF IsLists THEN Decisions(b, ld, rd) ELSE ObjDecisions(ld, rd)
+DecisionsOf(b, ld, rd) == IF IsSeq THEN Decisions(b, ld, rd) ELSE ObjDecisions(ld, rd)
 
-Init == /\ IF IsLists THEN base \in ListU /\ local \in ListU /\ remote \in ListU
-                     ELSE base \in ObjU /\ local \in ObjU /\ remote \in ObjU
+Init == /\ CASE IsLists  -> /\ base \in ListU /\ local \in ListU /\ remote \in ListU
+                            /\ ldv = ListDiff(base, local) /\ rdv = ListDiff(base, remote)
+             [] IsNested -> /\ base \in NestU
+                            /\ ldv \in NestedDiffs(base) /\ rdv \in NestedDiffs(base)
+                            /\ local = Patch(List(base), ldv).e /\ remote = Patch(List(base), rdv).e
+             [] OTHER    -> /\ base \in ObjU /\ local \in ObjU /\ remote \in ObjU
+                            /\ ldv = ObjDiff(base, local, KS) /\ rdv = ObjDiff(base, remote, KS)
         /\ D = <<>> /\ merged = Null /\ phase = "input"
 
 Decide == /\ phase = "input"
-          /\ LET ds == DecisionsOf(base, DiffOf(base, local), DiffOf(base, remote))
+          /\ LET ds == DecisionsOf(base, ldv, rdv)
                  r  == ApplyDecisions(Doc(base), ds)
              IN D' = ds /\ merged' = (IF r.ok THEN r.v ELSE [t |-> "x"])
           /\ phase' = "merged"
-          /\ UNCHANGED <<base, local, remote>>
+          /\ UNCHANGED <<base, local, remote, ldv, rdv>>
 Next == Decide
 Spec == Init /\ [][Next]_vars
 
 Done == phase = "merged"
-LD == DiffOf(base, local)
-RD == DiffOf(base, remote)
+LD == ldv
+RD == rdv
 Swapped == DecisionsOf(base, RD, LD)
 
 DiffsCorrect ==
@@ -224,32 +316,37 @@ ChunkShapes ==
       /\ t0[1] <= 1 /\ t0[3] <= 1 /\ t1[1] <= 1 /\ t1[3] <= 1
       /\ (t0[2] = "R" /\ t1[2] = "R") => DiffEq(SelectSeq(c.d0, LAMBDA e : e.op # "addrange"),
                                                SelectSeq(c.d1, LAMBDA e : e.op # "addrange"))
-NoErrorArm == Done => \A j \in 1..Len(D) : D[j].action # "ERROR-R/R"
+NoErrorArm == Done => \A j \in 1..Len(D) : D[j].action \notin {"ERROR-R/R", "ERROR-unhandled"}
 Applies == Done => merged.t = Doc(base).t
 AllLocal  == Done => AllSideIs(Doc(base), D, "local", Doc(local))
 AllRemote == Done => AllSideIs(Doc(base), D, "remote", Doc(remote))
+\* nested: the diffs are inputs, so "unchanged" / "the same change" are read off the diffs
+Unchanged(x, d) == IF IsNested THEN Len(d) = 0 ELSE x = base
+SameChange == IF IsNested THEN DiffEq(LD, RD) ELSE local = remote
 Laws == Done =>
-  /\ (local = base /\ remote = base) => Len(D) = 0
-  /\ (remote = base) => (~HasConf(D) /\ Eq(merged, Doc(local)))
-  /\ (local = base) => (~HasConf(D) /\ Eq(merged, Doc(remote)))
-  /\ (local = remote) => (~HasConf(D) /\ Eq(merged, Doc(local)))
+  /\ (Unchanged(local, LD) /\ Unchanged(remote, RD)) => Len(D) = 0
+  /\ Unchanged(remote, RD) => (~HasConf(D) /\ Eq(merged, Doc(local)))
+  /\ Unchanged(local, LD) => (~HasConf(D) /\ Eq(merged, Doc(remote)))
+  /\ SameChange => (~HasConf(D) /\ Eq(merged, Doc(local)))
 Symmetric == Done =>
-  \/ (IsLists /\ SamePositionInsert(LD, RD))
+  \/ (IsSeq /\ SamePositionInsert(LD, RD))
   \/ /\ HasConf(D) = HasConf(Swapped)
      /\ (~HasConf(D) => LET r == ApplyDecisions(Doc(base), Swapped) IN r.ok /\ Eq(r.v, merged))
 \* C06 at design level: the two diffs touch positions that are at least one untouched item apart
-Touched(d) == UNION {IF d[j].op = "removerange" THEN d[j].key..(d[j].key + d[j].length) ELSE {d[j].key} : j \in 1..Len(d)}
+Touched(d) == UNION {IF d[j].op = "removerange" THEN d[j].key..(d[j].key + d[j].length)
+                     ELSE IF d[j].op = "patch" THEN d[j].key..(d[j].key + 1) ELSE {d[j].key} : j \in 1..Len(d)}
 Separated(d0, d1) ==
-  IF IsLists THEN \A x \in Touched(d0), y \in Touched(d1) : x + 1 < y \/ y + 1 < x
+  IF IsSeq THEN \A x \in Touched(d0), y \in Touched(d1) : x + 1 < y \/ y + 1 < x
   ELSE {d0[j].key : j \in 1..Len(d0)} \cap {d1[j].key : j \in 1..Len(d1)} = {}      \* different keys
 DisjointClean == (Done /\ Separated(LD, RD)) =>
   /\ ~HasConf(D)
   /\ Eq(merged, Patch(Doc(base), Canonical(LD \o RD)))
 EmbeddedAllWF == Done => AllEmbeddedWF(Doc(base), D)
 
-DecJson(dd) == [action |-> dd.action, conflict |-> dd.conflict, local_diff |-> dd.local_diff, local_null |-> dd.local_null,
-                remote_diff |-> dd.remote_diff]
+DecJson(dd) == [common_path |-> dd.common_path, action |-> dd.action, conflict |-> dd.conflict,
+                local_diff |-> dd.local_diff, local_null |-> dd.local_null,
+                remote_diff |-> dd.remote_diff, remote_null |-> dd.remote_null]
 Emit == (EMIT /\ Done) =>
-  PrintT("MERGE " \o ToJson([base |-> Doc(base), local |-> Doc(local), remote |-> Doc(remote),
+  PrintT("MERGE " \o ToJson([base |-> Doc(base), local |-> Doc(local), remote |-> Doc(remote), ld |-> LD, rd |-> RD,
                               D |-> [j \in 1..Len(D) |-> DecJson(D[j])], merged |-> merged]))
 =============================================================================
